@@ -191,12 +191,15 @@ def run_property(pid: str, tier: str, seed: int, write_lock=False, verbose=False
             json.dump(doc, f, indent=1, default=str)
         if rep["status"] == "reproduced":
             violations.append((cid, path, ""))
-        elif rep["status"] == "not-reproduced" and not (cid in locked):
+        in_lock = cid in locked or (ob.kind == "raises" and any(l.startswith(ob.func + "::") for l in locked))
+        if rep["status"] == "reproduced":
+            pass
+        elif rep["status"] == "not-reproduced" and not in_lock:
             spurious.append(cid)
             undecided.append({"obligation": cid, "reason": "refuted by the solver but the concretised input "
                               "passes natively (spurious model: weak callee contract)"})
         else:
-            if cid in locked or not locked:
+            if in_lock or not locked:
                 violations.append((cid, path, " no-failing-input-found"))
             else:
                 undecided.append({"obligation": cid, "reason": "refuted, not in lock, no replay"})
